@@ -46,7 +46,7 @@ Observe(i) == IF Kind(i) = "const" THEN Look(hook, i) ELSE enc[i]
 
 Rename(i, n) == /\ Len(hist) < MaxOps /\ hist' = Append(hist, <<"rename", i, n>>) /\ DictRename(i, n) /\ HookRename(i, n)
 Reload(i)    == /\ Len(hist) < MaxOps /\ hist' = Append(hist, <<"reload", i, 0>>) /\ UNCHANGED truth /\ HookReload(i)
-Next == \/ \E i \in Renamable, n \in 1..NNames : Rename(i, n)
+Next == \/ \E i \in Renamable, n \in 0..NNames : Rename(i, n)          \* n = 0: renamed back to the original name
         \/ \E i \in Renamable : Reload(i)
 Spec == Init /\ [][Next]_vars
 
